@@ -243,6 +243,24 @@ func runDisasm(c *harness.Ctx) harness.Result {
 		p.Location = append(p.Location, l)
 		p.Sample = append(p.Sample, &profile.Sample{Value: []int64{int64(1 + r.Intn(9))}, Location: []*profile.Location{l}})
 	}
+	// half of the sessions also hold samples of a second binary that objdump cannot handle (a
+	// foreign or damaged object: its objdump run fails without output)
+	tools := ""
+	if r.Intn(2) == 0 {
+		other := filepath.Join(c.Tmp, "other_bin")
+		if data, err := os.ReadFile(exe); err == nil && os.WriteFile(other, data, 0o755) == nil {
+			td := filepath.Join(c.Tmp, "tools")
+			os.MkdirAll(td, 0o755)
+			os.WriteFile(filepath.Join(td, "objdump"), []byte("#!/bin/sh\ncase \"$*\" in *other_bin*) exit 1;; esac\nexec /usr/bin/objdump \"$@\"\n"), 0o755)
+			tools = "addr2line:/usr/bin,nm:/usr/bin,objdump:" + td + ",llvm-symbolizer:/nonexistent"
+			m2 := &profile.Mapping{ID: 2, Start: 0x10400000, Limit: 0x10401000, File: other}
+			l := &profile.Location{ID: 4, Mapping: m2, Address: 0x1040052d, Line: []profile.Line{{Function: fn, Line: 4}}}
+			p.Mapping = append(p.Mapping, m2)
+			p.Location = append(p.Location, l)
+			p.Sample = append(p.Sample, &profile.Sample{Value: []int64{1}, Location: []*profile.Location{l}})
+			c.Stat("disasm_sessions_with_unreadable_binary", 1)
+		}
+	}
 	var buf bytes.Buffer
 	p.WriteUncompressed(&buf)
 	pool := []line{{"disasm main", false}, {"intel_syntax=true", true}, {"intel_syntax=false", true}, {"intel_syntax", true}, {"disasm main > d.txt", false}, {"weblist main > w.html", false}, {"disasm .", false}, {"unit=ms", true}, {"top", false}}
@@ -255,7 +273,7 @@ func runDisasm(c *harness.Ctx) harness.Result {
 		lines = append(lines, l.text)
 	}
 	res := harness.Result{NonTrivial: true, Sig: fmt.Sprintf("disasm %q", lines), Sample: map[string]any{"history": lines, "binary": "internal/binutils/testdata/exe_linux_64"}}
-	full, err := sess.Run(sess.Spec{Profile: buf.Bytes(), Mode: "interactive", Lines: lines, Dir: c.Tmp + "/full", RealObj: true}, 2*time.Minute)
+	full, err := sess.Run(sess.Spec{Profile: buf.Bytes(), Mode: "interactive", Lines: lines, Dir: c.Tmp + "/full", RealObj: true, Tools: tools}, 2*time.Minute)
 	if err != nil {
 		return harness.Result{Verdict: harness.Inconclusive, Detail: "session: " + err.Error()}
 	}
@@ -271,7 +289,7 @@ func runDisasm(c *harness.Ctx) harness.Result {
 			continue
 		}
 		replay := append(append([]string{}, assigns...), l.text)
-		fresh, err := sess.Run(sess.Spec{Profile: buf.Bytes(), Mode: "interactive", Lines: replay, Dir: fmt.Sprintf("%s/fresh%d", c.Tmp, i), RealObj: true}, 2*time.Minute)
+		fresh, err := sess.Run(sess.Spec{Profile: buf.Bytes(), Mode: "interactive", Lines: replay, Dir: fmt.Sprintf("%s/fresh%d", c.Tmp, i), RealObj: true, Tools: tools}, 2*time.Minute)
 		if err != nil || len(fresh.Segments) < len(replay) {
 			return harness.Result{Verdict: harness.Inconclusive, Detail: fmt.Sprintf("fresh session: %v", err)}
 		}
